@@ -597,7 +597,7 @@ func judge(c Case, s *rt.Section) (v verdict) {
 			return
 		}
 		if o.Panic != "" {
-			v.discard = "panic-in-reference-run(C01)"
+			v.discard = "panic-in-reference-run(C01) " + o.Panic
 			return
 		}
 		if o.Err != "" {
@@ -1113,7 +1113,7 @@ func TestProp(t *testing.T) {
 			}
 		})
 
-	run.Check("history", 7000, 100000,
+	run.Check("history", 7000, 80000,
 		"a history of 1..4 programs on one seeded context (generated programs dense in dice of every enabled family, random array methods, default-sided dice, dice in function/computed/template/loop bodies; or an operator x path table entry; run through Run, Parse+RunAfterParsed once or twice, or RunExpr with ctx.Error/NumOpCount cleared) x 16 seed bytes x configuration (families, mode, IgnoreDiv0, DefaultDiceSideExpr) x interference plans (unseeded VMs, other seeded VMs, VMs with the subject's own seed, Roll*/x-exp-rand/math-rand global draws, observers; before the context exists, on the very context object before it is seeded and re-initialised, between steps, and inside a run at chosen instruction/die-roll ticks) x resume cuts; oracles replay/noleak/resume; non-trivial = random mode, >= 2 draws from the context generator in the reference run and >= 1 interference act executed; distinct by (programs, seed)",
 		func(t *rapid.T, s *rt.Section) {
 			c := drawCase(t, s)
